@@ -58,6 +58,7 @@ registry! {
     c32::C32,
     c33::C33,
     c34::C34,
+    c35::C35,
     c36::C36,
     c38::C38,
     c39::C39,
